@@ -25,9 +25,9 @@ def cases(draw, nums):
         L = draw(st.integers(1, 7))
         c = draw(gen.curves(0, 3 if rational else 4, 4, nums=nums, rational=rational, interval=(F(a), F(a + L)), grid=L,
                             values=st.integers(-12, 12).map(F)))
-        return {"curve": c}
+        return {"curve": c, "history": draw(st.sampled_from(lib.HISTORY_MODES))}
     c = draw(gen.curves(0, 3 if rational else 4, 3 if rational else 4, nums=nums, rational=rational))
-    return {"curve": c}
+    return {"curve": c, "history": draw(st.sampled_from(lib.HISTORY_MODES))}
 
 
 def exact_derivative(ref, lo, hi, ts):
@@ -58,7 +58,21 @@ def check(case, out):
     num = c["num"]
     exact = lib.is_exact(num)
     ref = lib.case_state(c)
-    curve = lib.build_curve(c)
+    # (object history: the curve may have been constructed with other data, used / differentiated, and then given
+    # its control points and weights through the public setters)
+    def use(obj):
+        lib.default_use(obj)
+        try:
+            lib.nurbs.calculus.Derivate(obj)
+        except Exception as exc0:
+            if not lib.from_library(exc0):
+                raise
+    curve = lib.build_curve_history(c, case.get("history"), use)
+    if case.get("history"):
+        out.cls("history=" + case["history"])
+        if lib.state_of(curve).key() != ref.key():
+            out.exclude("setter-history-did-not-reach-the-state (C15 territory)")
+            return
     p = ref.p
     bk = oracle.breaks(ref.U)
     inner = bk[1:-1]
